@@ -411,6 +411,51 @@ EXTERNAL = [("ExtId", "legacy"), ("Stamp", "chrono"), ("Blob", "store"), ("Money
 TARGETS = ["string", "number", "boolean"]
 
 
+def dup_command_names(case):
+    seen, dups = set(), []
+    for rel in sorted(case["files"]):
+        for it in case["files"][rel]:
+            if it["kind"] == "fn" and is_command(it):
+                if it["name"] in seen and it["name"] not in dups:
+                    dups.append(it["name"])
+                seen.add(it["name"])
+    return dups
+
+
+CFGS = ['cfg(target_os = "windows")', 'cfg(target_os = "linux")', 'cfg(not(target_os = "macos"))', 'cfg(unix)', 'cfg(feature = "desktop")']
+
+
+def add_dup_commands(rng, items, files):
+    """Command names defined more than once (legal Rust: one definition per platform module, or #[cfg] variants in
+    one file): the same signature, no emit call in the copies. HEAD generates a wrapper and a Params declaration per
+    definition, wherever the definitions stand."""
+    cmds = [(f, it) for f in files for it in items[f] if it["kind"] == "fn" and is_command(it)]
+    if not cmds:
+        return
+    def variant(it):
+        cp = copy.deepcopy(it)
+        cp["body"] = [st for st in cp.get("body", []) if not isinstance(st, dict)]
+        cp["attrs"] = [rng.choice(CFGS)] + list(cp["attrs"])
+        return cp
+    platform = rng.random() < 0.6
+    a, b = "src/platform/linux.rs", "src/platform/windows.rs"
+    if platform:
+        items[a], items[b] = [], []
+    for f, it in rng.sample(cmds, min(len(cmds), rng.randint(2, 3))):
+        emits = any(isinstance(st, dict) for st in it.get("body", []))
+        if platform:
+            if not emits and rng.random() < 0.7:
+                items[f].remove(it)
+                items[a].append(it)
+                items[b].append(variant(it))
+            else:
+                items[a].append(variant(it))
+                items[b].append(variant(it))
+        else:
+            for _ in range(rng.randint(1, 2)):
+                items[f if rng.random() < 0.5 else rng.choice(files)].append(variant(it))
+
+
 def add_mappings(rng, items, files, cmd_files, names):
     tm = {"PathBuf": "string", "Decimal": "number", "Uuid4": "string"}
     fields = []
@@ -443,8 +488,9 @@ def add_mappings(rng, items, files, cmd_files, names):
 def gen_project(rng, shape=None):
     """shape: 'multi' (commands/events/types spread over all files), 'onefile' (a single file),
     'cmd1' (all commands and emit calls in one file, types elsewhere; chain-shaped type graph),
-    'dup' (multi + one type name defined in two or three files)."""
-    shape = shape or rng.choice(["multi", "multi", "multi", "cmd1", "cmd1", "cmd1", "onefile", "onefile", "dup", "dupev"])
+    'dup' (multi + one type name defined in two or three files), 'dupev', 'dupcmd' (multi + command names defined
+    more than once: per-platform modules, #[cfg] variants in one file)."""
+    shape = shape or rng.choice(["multi", "multi", "multi", "cmd1", "cmd1", "cmd1", "onefile", "onefile", "dup", "dupev", "dupcmd", "dupcmd"])
     nfiles = 1 if shape == "onefile" else rng.randint(1, 4) if shape == "dupev" else rng.randint(2, 6)
     if rng.random() < 0.25:
         files = ["src/lib.rs"] + ["src/m%d.rs" % k for k in range(1, nfiles)]
@@ -542,6 +588,8 @@ def gen_project(rng, shape=None):
         body.append({"emit": evnames.pop(), "recv": "app", "payload": pay})
         items[f].append({"kind": "fn", "name": fname, "attrs": [], "async": False, "vis": "pub",
                          "params": params, "ret": None, "body": body})
+    if shape == "dupcmd" or rng.random() < 0.1:
+        add_dup_commands(rng, items, files)
     add_ties(rng, items, files, cmd_files, names)
     config = add_mappings(rng, items, files, cmd_files, names) if rng.random() < 0.6 else {}
     # decoys
@@ -764,7 +812,29 @@ def t_movedef(rng, case):
     return c
 
 
-TRANSFORMS = {"reorder": t_reorder, "move": t_move, "split": t_split, "merge": t_merge, "reverse": t_reverse,
+def t_adjdup(rng, case):
+    """For a command name defined more than once: move a later definition so that it stands directly after the
+    first one (or, if it already does, to the end of the last file)."""
+    c = copy.deepcopy(case)
+    dn = dup_command_names(c)
+    if not dn:
+        return c
+    n = rng.choice(dn)
+    fs = sorted(c["files"], key=lambda q: q.split("/"))
+    pos = [(f, i) for f in fs for i, it in enumerate(c["files"][f]) if it["kind"] == "fn" and is_command(it) and it["name"] == n]
+    (f0, i0), (f1, i1) = pos[0], pos[-1]
+    it = c["files"][f1].pop(i1)
+    # adjacent = no other command between the two definitions
+    between = [x for f in fs[fs.index(f0):fs.index(f1) + 1] for j, x in enumerate(c["files"][f])
+               if x["kind"] == "fn" and is_command(x) and x["name"] != n and (f != f0 or j > i0) and (f != f1 or j < i1)]
+    if between:
+        c["files"][f0].insert(i0 + 1, it)
+    else:
+        c["files"][fs[-1]].append(it)
+    return c
+
+
+TRANSFORMS = {"adjdup": t_adjdup, "reorder": t_reorder, "move": t_move, "split": t_split, "merge": t_merge, "reverse": t_reverse,
               "movedef": t_movedef}
 
 
